@@ -642,13 +642,13 @@ class Layouts(Family):
         dts = ["i8", "U1"] if swap else ["i8", "U1", "O"]
         for dt in (dts if tier == "thorough" else [dts[k % len(dts)], dts[(k + 1) % len(dts)]]):
             yield ["uniq", dt, shape, vals, lay, None]
-        modes = self.CAT_MODES if tier == "thorough" else self.CAT_MODES[:3] + [self.CAT_MODES[3 + k % 4]]
+        modes = self.CAT_MODES if tier == "thorough" else self.CAT_MODES[:2] + [self.CAT_MODES[2 + k % 5]]
         for j, (cp, od) in enumerate(modes):
             yield ["cat", dts[(k + j) % len(dts)], shape, vals, lay, [cp, od]]
         for touch in ((0, 1, 2, 3) if tier == "thorough" else (k % 4,)):
             yield ["der", "U1" if (k + touch) % 3 else "i8", shape, vals, lay, [[], touch, self.DER_POST[(k + touch) % 5]]]
         item_sets = [cats, cats + [200, 201], cats[1:], cats[::-1]]
-        for j in ((0, 1, 2, 3) if tier == "thorough" else (k % 4, (k + 2) % 4)):
+        for j in ((0, 1, 2, 3) if tier == "thorough" else (k % 4,)):
             yield ["look", "U1" if (k + j) % 2 else "i8", shape, vals, lay, item_sets[j]]
         yield ["unb", "i8" if k % 2 else "U1", shape, vals, lay, None]
         if not shape:  # 0-d: nothing to compare along an axis / broadcast against
